@@ -122,6 +122,12 @@ func TestVerifC40(t *testing.T) {
 		skip = v
 	}
 
+	// stop by ourselves (normal exit) when the driver's time budget is used up
+	deadline := time.Now().Add(24 * time.Hour)
+	if v, err := strconv.Atoi(os.Getenv("VERIF_BUDGET_S")); err == nil && v > 0 {
+		deadline = time.Now().Add(time.Duration(v) * time.Second)
+	}
+
 	if devnull, err := os.OpenFile(os.DevNull, os.O_WRONLY, 0); err == nil {
 		os.Stdout = devnull
 	}
@@ -137,6 +143,10 @@ func TestVerifC40(t *testing.T) {
 
 		if q.ID < skip {
 			continue
+		}
+
+		if time.Now().After(deadline) {
+			break
 		}
 
 		fmt.Fprintf(out, "S %d\n", q.ID)
